@@ -49,7 +49,7 @@ def histories(tier):
 def units(tier):
     hs = histories(tier)
     k = 6 if tier == "quick" else 8
-    return [("hist", i) for i in range(0, len(hs), k)] + [("getters", 0)]
+    return [("hist", i) for i in range(0, len(hs), k)] + [("getters", 0), ("derived", 0)]
 
 
 def nac(method, rng):
@@ -205,6 +205,82 @@ def replay(h, a, b, fv=None):
     return d > 1e-8, "after history %s the dynamical matrices differ by %.3g from those of a fresh object built from the final force constants, masses and NAC parameters" % ("-".join(h), d)
 
 
+@symnp.outside_session
+def _concrete_history(h, A, B, fv, observe):
+    """history h on ordinary arrays (compiled kernels through the bridge); `observe(ph)` is called for the ops 'G' and at the end"""
+    n = geometries.natom_super(GID, SID)
+    ph = geometries.phonopy_obj(GID, SID)
+    ph.force_constants = A.copy()
+    cur_nac = None; cur_m = None
+    for op in h:
+        if op == "FB":
+            ph.force_constants = B.copy()
+        elif op == "S":
+            ph.symmetrize_force_constants(show_drift=False)
+        elif op == "C":
+            ph.set_force_constants_zero_with_radius(RADIUS)
+        elif op in ("Nw", "Ng"):
+            cur_nac = nac("wang" if op == "Nw" else "gonze", np.random.default_rng(9)); ph.nac_params = cur_nac
+        elif op == "N0":
+            cur_nac = None; ph.nac_params = None
+        elif op == "M":
+            cur_m = np.array([20.0, 40.0]); ph.masses = cur_m
+        elif op == "Q":
+            query(ph)
+        elif op == "G":
+            observe(ph)
+        elif op == "P":
+            ph.generate_displacements(distance=0.03)
+            nd = len(ph.displacements)
+            ph.forces = np.array(fv[:nd * n * 3], dtype=float).reshape(nd, n, 3)
+            ph.produce_force_constants(show_drift=False)
+    out = observe(ph)
+    f = geometries.phonopy_obj(GID, SID)
+    if cur_m is not None:
+        f.masses = cur_m
+    if cur_nac is not None:
+        f.nac_params = cur_nac
+    f.force_constants = np.array(ph.force_constants, dtype="double", order="C").copy()
+    return out, observe(f)
+
+
+def derived_unit(u, res):
+    """query kinds other than D(q) that go through lazily created helper objects (group velocities at q, on a q-list, on a mesh): after
+    a history that contains such a query *before* a state change, the same query must answer like a fresh object.  Evaluated on
+    concrete random force constants through the compiled kernels (ground facts: the helper's numerics involve LAPACK)."""
+    ctx = harness.setup()
+    br = bridge.Bridge(ctx.shim, ctx.ir); br.install()
+    n = geometries.natom_super(GID, SID)
+    rng = np.random.default_rng(12)
+    A = rng.uniform(-1, 1, (n, n, 3, 3)); A = (A + np.transpose(A, (1, 0, 3, 2))) / 2
+    B = rng.uniform(-1, 1, (n, n, 3, 3)); B = (B + np.transpose(B, (1, 0, 3, 2))) / 2
+    fv = rng.uniform(-1, 1, 24 * n * 3)
+
+    def observe(ph):
+        g1 = np.array(ph.get_group_velocity_at_q(QS[0]))
+        ph.run_qpoints(QS, with_group_velocities=True)
+        g2 = np.array(ph.get_qpoints_dict()["group_velocities"])
+        ph.run_mesh([2, 2, 1], with_group_velocities=True, is_mesh_symmetry=False)
+        g3 = np.array(ph.get_mesh_dict()["group_velocities"])
+        return np.concatenate([g1.ravel(), g2.ravel(), g3.ravel()])
+    try:
+        hs = [("G", op) for op in OPS if op != "Q"] + [("G", a, b) for a in ("Ng", "Nw", "FB", "M") for b in ("FB", "N0", "Nw", "Ng", "S", "C", "M") if a != b] + [("Ng", "G", "C"), ("Nw", "G", "S")]
+        for h in hs:
+            got, want = _concrete_history(h, A, B, fv, observe)
+            d = float(np.abs(got - want).max())
+            ok = d < 1e-7 * max(1.0, float(np.abs(want).max()))
+            res.queries.append({"name": "history %s: group velocities (at q, on a q-list, on a mesh) == those of a fresh object from the final state [ground fact]" % "-".join(h),
+                                "verdict": "unsat" if ok else "sat", "seconds": 0.0, "nvars": 0, "nontrivial": False, "hash": "ground"})
+            if not ok:
+                res.violations.append({"key": "%s:derived:%s" % (PID, "-".join(h)), "what": "after history %s (G = a group-velocity query) the group velocities differ by %.3g from those of a fresh object built from the final state" % ("-".join(h), d),
+                                       "replay": {"history": list(h)}})
+    finally:
+        br.uninstall()
+    res.twins.append({"name": "derived twin", "verdict": "sat"})
+    res.samples.append({"unit": res.unit, "histories": len(hs)})
+    return res
+
+
 def getters_unit(u, res):
     """PhonopyAtoms getters hand out copies; the dataset setter keeps a copy (evaluated on concrete objects)."""
     ph = geometries.phonopy_obj(GID, SID)
@@ -249,7 +325,7 @@ def getters_unit(u, res):
 def run_unit(u):
     res = Result("/".join(str(x) for x in u))
     harness.setup()
-    return hist_unit(u, res) if u[0] == "hist" else getters_unit(u, res)
+    return hist_unit(u, res) if u[0] == "hist" else (derived_unit(u, res) if u[0] == "derived" else getters_unit(u, res))
 
 
 def main(tier, seed):
@@ -258,7 +334,7 @@ def main(tier, seed):
     us = units(tier)
     chk.bounds = ["crystal %s/%s (4 supercell atoms, 2 primitive atoms); two symbolic force-constant arrays (288 reals); all histories of length <= 2 over %s plus %d length-3 query-interleaved histories (thorough: all of length 3)" % (GID, SID, OPS, 15),
                   "final query at q = %s; cutoff radius %.1f A; masses (20, 40); one Wang and one Gonze-Lee parameter set" % (QS, RADIUS)]
-    chk.outside = ["longer histories; copy() (documented to drop force constants and NAC parameters)", "that symmetrize_force_constants() leaves the caller's array untouched is deliberately NOT asserted (zero-copy adoption of C-contiguous double arrays is documented)",
+    chk.outside = ["derived quantities other than D(q) as a solver claim (group velocities after histories are ground facts on concrete force constants)", "longer histories; copy() (documented to drop force constants and NAC parameters)", "that symmetrize_force_constants() leaves the caller's array untouched is deliberately NOT asserted (zero-copy adoption of C-contiguous double arrays is documented)",
                    "Gonze-Lee short-range cache with symbolic Born charges"]
     chk.assumptions = ["doubles as exact reals; LAPACK replaced by a contract stub (the dynamical matrices are compared, not the spectra)"]
     chk.run_units(run_unit, us)
